@@ -46,6 +46,10 @@ EVENT_FORMS = {
     'dd': ('data', 'hdr', [' .', 'b']),            # ' .' (followed by the marker) is data; only '.' alone ends the block
     's8': ('single', 'Read configuration file "/home/j\u00fcrgen/torrc".', []),     # 8-bit text (Tor prints paths as they are)
     'ddot': ('data', 'hdr', ['.x', '..y', 'z.']),     # lines that begin with '.' (dot-stuffed on the wire) arrive as Tor meant them
+    # one line longer than Twisted's default line limit (a NEWDESC / NS event listing many relays)
+    'slong': ('single', 'r' * 20000, []),
+    'mlong': ('multi', 'hdr', ['x=' + 'y' * 20000, 'z']),
+    'dlong': ('data', 'hdr', ['p accept ' + '1,' * 10000, 'q']),
     'db': ('data', 'hdr', ['a', None, None, 'b']),   # blank lines (None = really empty) inside the data block are payload
 }
 REPLY_SHAPES = ['M1', 'D', 'EM']
@@ -251,6 +255,8 @@ def run_session(setup, queue, plan, events, seg, with_events=True, post_ops=()):
                 cs = [buf[i:i + 1] for i in range(len(buf))]
             elif seg[0] == 'cut' and 0 < seg[1] < len(buf):
                 cs = [buf[:seg[1]], buf[seg[1]:]]
+            elif seg[0] == 'chunks':
+                cs = [buf[i:i + seg[1]] for i in range(0, len(buf), seg[1])]
             elif seg[0] == 'cutsubmit' and 0 < seg[1] < len(buf):
                 # the application submits a command between two segments of the event
                 cs = [buf[:seg[1]], ('submit', seg[2]), buf[seg[1]:]]
@@ -469,6 +475,7 @@ def tasks(tier, seed):
     for first in range(8):
         out.append(('subs', first, depth))
     out.append(('midsubmit',))
+    out.append(('longline',))
     return out
 
 
@@ -495,7 +502,7 @@ def run_midsubmit(acc):
     setup = [(SUB, 'rec'), ('GUARD', 'rec')]
     for kind in ('P', 'K'):
         base = run_session(setup, kind, ('r',), [], ('sep',), with_events=False)
-        for fk in sorted(EVENT_FORMS):
+        for fk in sorted(k for k in EVENT_FORMS if not k.endswith('long')):
             for name in (SUB, UNSUB):
                 data = make_event(0, name, fk)[0]
                 for cut in range(1, len(data)):
@@ -509,6 +516,22 @@ def run_midsubmit(acc):
                                   nontrivial=True, steps=r['steps'])
                     violations_to_acc(acc, r, dict(family='midsubmit', setup=[list(x) for x in setup], queue='', plan=['e'], events=[[name, fk]],
                                                    seg=list(seg), kind=kind), cost=20 + cut)
+
+
+def run_longline(acc):
+    """an event with one very long line (whole, and in 4096-byte segments), queue idle or a command in flight: delivered once with
+    its exact payload, the reply behind it arrives, the connection stays up"""
+    setup = [(SUB, 'rec'), ('GUARD', 'rec')]
+    for fk in ('slong', 'mlong', 'dlong'):
+        for queue, plan in (('', ('e', 'e')), ('P', ('e', 'r', 'e')), ('K', ('e', 'e', 'r'))):
+            for seg in (('sep',), ('chunks', 4096)):
+                evs = ((SUB, fk), (SUB, 's'))
+                r = route_one(tuple(setup), queue, plan, evs, seg)
+                r['viol'] = [(c, f + '/long-line', d[:300]) for c, f, d in r['viol']]
+                acc.execution(key=('longline', fk, queue, seg), outcome='longline/' + ('/'.join(sorted(set(v[0] for v in r['viol']))) or 'ok'),
+                              nontrivial=True, steps=r['steps'])
+                violations_to_acc(acc, r, dict(family='longline', setup=[list(x) for x in setup], queue=queue, plan=list(plan),
+                                               events=[list(e) for e in evs], seg=list(seg)), cost=30)
 
 
 def run_route(cases, acc, tier):
@@ -660,6 +683,8 @@ def run_task(param, acc):
         run_subs(param[1], param[2], acc)
     elif param[0] == 'midsubmit':
         run_midsubmit(acc)
+    elif param[0] == 'longline':
+        run_longline(acc)
 
 
 def replay(p):
@@ -669,7 +694,10 @@ def replay(p):
     setup = tuple(tuple(x) for x in p['setup'])
     evs = tuple(tuple(x) for x in p['events'])
     seg = tuple(p['seg'])
-    if p['family'] == 'route':
+    if p['family'] == 'longline':
+        r = route_one(setup, p['queue'], tuple(p['plan']), evs, seg)
+        r['viol'] = [(c, f + '/long-line', d[:300]) for c, f, d in r['viol']]
+    elif p['family'] == 'route':
         r = route_one(setup, p['queue'], tuple(p['plan']), evs, seg)
     elif p['family'] == 'midsubmit':
         base = run_session(setup, p['kind'], ('r',), [], ('sep',), with_events=False)
